@@ -16,6 +16,12 @@ RULE = (
     "`count` register with the model; non-trivial = the count reached max_count AND acquire and release were accepted "
     "in one cycle AND (acquire+release both requested at max_count, or clear accepted together with an acquire)"
 )
+RULE += (
+    "  In one case of three a SECOND, independent caller (its own transaction) of one exclusive method (acquire / release) requests "
+    "in some of the cycles in which the first caller does, with the same arguments: at most one of the two may be served "
+    "and the outcome must be that of a single request."
+)
+
 ASSUMPTIONS = [
     "amaranth.sim.Simulator is the trusted execution model",
     "readiness is judged behaviourally: a requested call that is not accepted counts as 'not ready'",
